@@ -70,7 +70,7 @@ def tree_key(repo):
                 h.update(hashlib.sha256(fh.read()).digest())
     h.update(os.path.abspath(repo).encode())
     # extraction logic version: bump when core.py changes what it stores
-    h.update(b'core-v14')
+    h.update(b'core-v15')
     return h.hexdigest()[:24]
 
 
@@ -104,7 +104,7 @@ CONFIGS = {
 ONLY_UNITS = {
     'K4': ['src/soft_aes.cpp', 'src/aes_hash.cpp', 'src/instructions_portable.cpp'],
     'K5': ['src/reciprocal.c'],
-    'K6': ['src/soft_aes.cpp'],
+    'K6': ['src/soft_aes.cpp', 'src/virtual_machine.cpp', 'src/vm_interpreted.cpp', 'src/bytecode_machine.cpp', 'src/aes_hash.cpp'],
     'K7a': ['src/blake2/blake2b.c'], 'K7b': ['src/blake2/blake2b.c'], 'K7c': ['src/blake2/blake2b.c'], 'K7d': ['src/blake2/blake2b.c'],
 }
 
